@@ -172,6 +172,36 @@ type Gateway struct {
 	stats     Stats
 	deliverMu sync.Mutex // serialises deliveries so that "later datagram" is well defined
 	stopped   bool
+	failHB    bool // the next connection-state request is answered "unknown connection" and ends the connection
+}
+
+// Disconnect ends the connection from the gateway's side: from now on it
+// accepts nothing on the old channel, abandons its own outstanding request and
+// sends a disconnect request to the client. Returns false when not connected.
+func (g *Gateway) Disconnect() bool {
+	g.mu.Lock()
+	if !g.connected || g.stopped {
+		g.mu.Unlock()
+		return false
+	}
+	g.connected = false
+	ch := g.channel
+	if g.pending != nil {
+		g.pending.GaveUp = true
+		g.pending = nil
+	}
+	g.mu.Unlock()
+	g.send(&knxnet.DiscReq{Channel: ch}, spec.Parsed{OK: true, Service: spec.SvcDiscReq, Channel: ch})
+	return true
+}
+
+// FailNextHeartbeat makes the gateway forget the connection at the next
+// connection-state request: it answers "unknown connection" (0x21) and accepts
+// nothing on the old channel any more.
+func (g *Gateway) FailNextHeartbeat() {
+	g.mu.Lock()
+	g.failHB = true
+	g.mu.Unlock()
 }
 
 // NewGateway attaches a rule-following gateway to the socket.
@@ -186,6 +216,9 @@ func NewGateway(s *memsock.Sock, policy Policy) *Gateway {
 
 // Epoch returns the current connection epoch (1 after the first connect).
 func (g *Gateway) Epoch() int { g.mu.Lock(); defer g.mu.Unlock(); return g.epoch }
+
+// Connected reports whether the gateway currently has a connection.
+func (g *Gateway) Connected() bool { g.mu.Lock(); defer g.mu.Unlock(); return g.connected }
 
 // Channel returns the current channel.
 func (g *Gateway) Channel() uint8 { g.mu.Lock(); defer g.mu.Unlock(); return g.channel }
@@ -374,6 +407,15 @@ func (g *Gateway) receive(ev memsock.Event) {
 		answer := true
 		if g.HeartbeatStatus != nil && status == 0 {
 			status, answer = g.HeartbeatStatus(g.epoch, n)
+		}
+		if g.failHB && status == 0 && answer {
+			g.failHB = false
+			status = 0x21
+			g.connected = false
+			if g.pending != nil {
+				g.pending.GaveUp = true
+				g.pending = nil
+			}
 		}
 		g.mu.Unlock()
 		if answer {
